@@ -32,7 +32,7 @@ TEMPLATES = [
 ]
 
 
-# damages found by the thorough tier's two-edit simulation, kept in every run (the quick tier samples only 300 two-edit files)
+# damages found by the thorough tier's two-edit simulation, kept in every run (the quick tier samples only 1 600 two-edit files)
 PINNED = [
     # F47: a definition keyword inside a type body + a lost `)`: the restarted definition's generic parameter list
     {"edits": [{"k": "rep", "p": 12, "x": ":"}, {"k": "rep", "p": 7, "x": "type"}],
@@ -89,7 +89,7 @@ def run(out, tier, seed):
     cases = list(r.cases())
     if len(cases) < 5000:
         raise vlib.ToolError("too few Recovery cases")
-    nsim = 300 if tier == "quick" else 20000
+    nsim = 1600 if tier == "quick" else 20000
     jobs = [dict(module="Recovery", cfg="Recovery_sim.cfg", workers=1, simulate=1, depth=nsim // 4 * 5 + 3, seed=seed * 10 + i, timeout=3000,
                  env={"ITEMS": ip}, name=f"rec-sim-{i}") for i in range(4)]
     for j, r2 in zip(jobs, vlib.tlc_many(jobs, max_parallel=4)):
